@@ -250,6 +250,37 @@ def rerunStored : List (Stored α) → List (Strm α) → Stage α
 
 def Seq.rerun (s : Seq α) (past : List (Strm α)) : Stage α := rerunStored s.stored past
 
+/-- the earlier inputs of the element that follows the stored entries `ss`, when `past` are the earlier inputs of
+the first of them -/
+def pastOutsAll : List (Stored α) → List (Strm α) → List (Strm α)
+  | [], past => past
+  | st :: ss, past => pastOutsAll ss (pastOuts st [] past)
+
+
+/-- the element a stored entry wraps -/
+def Stored.element : Stored α → Element α
+  | .asIs e => e
+  | .adapted _ e => e
+
+
+/-- `Stored.Sound` as a Boolean (executed by the driver): what `run` will call on the entry exists and is callable -/
+def Stored.soundB : Stored α → Bool
+  | .asIs e => e.run.callable
+  | .adapted .runMethod e => e.run.callable
+  | .adapted .callRun e => e.call
+  | .adapted .fcRun e => e.fill.callable && e.compute.callable
+
+/-- which conversion `Sequence.__init__` chose -/
+def Stored.modeName : Stored α → String
+  | .asIs _ => "run"
+  | .adapted .runMethod _ => "run"
+  | .adapted .callRun _ => "call"
+  | .adapted .fcRun _ => "fc"
+
+/-- the value-by-value composition of a list of callables: `x ↦ en(...e2(e1(x)))`, stopping at the
+first one that raises -/
+def callAll (es : List (Element α)) (x : α) : Except Exc α := es.foldlM (fun v e => e.callDen v) x
+
 /-- a constructed `Sequence` used as an argument of another sequence: it has a callable `run`, and
 it is iterable (`LenaSequence.__iter__` yields its arguments) -/
 def Seq.toElement (s : Seq α) : Element α :=
